@@ -188,8 +188,7 @@ class Rotate(Generic[T], AffineTransform[T]):
         center: Center = "root",
         **kwargs,
     ) -> None:
-        fmt = f"Rotate-{n[0]}-{n[1]}-{n[2]}-{theta:.4f}"
-        super().__init__(rotate3d(n, theta), center=center, fmt=fmt, **kwargs)
+        super().__init__(rotate3d(n, theta), center=center, **kwargs)
         self.n = n
         self.theta = theta
         self.center = center
